@@ -434,7 +434,7 @@ def cir_variance_nonnegative(ctx, run, res, rule="C11.R8"):
                          file=str(ctx.prog.modules[fi.module].path), line=fi.node.lineno))
 
 
-def moments_local_vol(ctx, run, res):
+def moments_local_vol(ctx, run, res, rule="C10.R3", grid_only=False):
     q = S + "local_volatility.generate_local_volatility_process"
     fi = ctx.prog.functions[q]
     steps = []
@@ -458,8 +458,15 @@ def moments_local_vol(ctx, run, res):
         if isinstance(t, Op) and t.op == "call" and isinstance(t.args[0], Sym) and t.args[0].name == "sigma_fn":
             sigma_calls.append(t)
             return sig
-        if isinstance(t, Op) and t.op == "index" and isinstance(t.args[0], Op) and t.args[0].op == "arange" and len(t.args[0].args) == 1 and not isinstance(t.args[1], tuple):
-            return ts.conv(t.args[1])  # arange(n)[k] == k
+        if isinstance(t, Op) and t.op == "index" and isinstance(t.args[0], Op) and not isinstance(t.args[1], tuple):
+            g = t.args[0]
+            while isinstance(g, Op) and g.op == "to":
+                g = g.args[0]
+            if isinstance(g, Op) and g.op == "arange" and len(g.args) == 1:
+                return ts.conv(t.args[1])  # arange(n)[k] == k
+            if isinstance(g, Op) and g.op == "linspace" and len(g.args) == 3:
+                a_, b_, n_ = (ts.conv(x_) for x_ in g.args)  # linspace(a, b, n)[k] == a + (b - a) k / (n - 1)
+                return a_ + (b_ - a_) * ts.conv(t.args[1]) / (n_ - 1)
         return None
 
     ts = ToSympy(hooks=[hook, column_hook(elem, carried)], assume_positive=POS)
@@ -479,9 +486,12 @@ def moments_local_vol(ctx, run, res):
         if sp.simplify(a_s - ts.sym("x")) != 0:
             problems.append(f"spot argument is {a_s}, expected the current price")
     okc = bool(sigma_calls) and not problems
-    run.oblige("C10.R3", "local volatility: sigma_fn(t_i, S_i) with t_i = i dt", okc, "; ".join(problems))
+    run.oblige(rule, "local volatility: sigma_fn(t_i, S_i) with t_i = i dt", okc, "; ".join(problems))
     if not okc:
-        run.fail(Finding("C10.R3", q, "; ".join(problems) or "sigma_fn is not evaluated in the step", "the local volatility is not evaluated at the current time and price", file=str(ctx.prog.modules[fi.module].path), line=fi.node.lineno))
+        run.fail(Finding(rule, q, "; ".join(problems) or "sigma_fn is not evaluated in the step", "the local volatility is not evaluated at the current time and price: "
+                         "the volatility series lives on another grid than the prices", file=str(ctx.prog.modules[fi.module].path), line=fi.node.lineno))
+    if grid_only:
+        return
     # the increment dw = randn * sqrt(dt): randn_like(spot)[:, i] is z
     x = ts.sym("x")
     mean = gauss_expect(e)
@@ -998,3 +1008,5 @@ def check(ctx, run):  # noqa: F811
     from ..ctors import ctor_rule
     from ..primaries import primary_classes
     ctor_rule(ctx, run, "C10.R9", primary_classes(ctx.prog), None, "a model parameter the generator receives (self.<name>) is not the one the instrument was created with")
+    from ..primaries import init_forwarding_rule
+    init_forwarding_rule(ctx, run, "C10.R10")
